@@ -1082,6 +1082,52 @@ func c14GetterValues(c *Ctx) {
 		c.Count(id, true, "stream:getter-values")
 		f.Close()
 	}
+	// … bounds that are no numbers: "a thermometer without bounds" (-Inf … +Inf), a bound computed from a sensor's data sheet
+	// that came out as NaN. JSON has no such numbers; the attribute database is served all the same (such a bound is no bound)
+	for i, bd := range [][3]float64{{math.Inf(-1), math.Inf(1), 0.1}, {0, math.Inf(1), 1}, {math.NaN(), 50, 0.5}, {-20, 60, math.NaN()}, {math.Inf(-1), 40, math.Inf(1)}} {
+		for _, how := range []string{"NewTemperatureSensor", "NewThermostat", "setters"} {
+			id := fmt.Sprintf("bounds-not-numbers#%d%s", i, how)
+			if c.Skip(id) {
+				continue
+			}
+			var a *accessory.Accessory
+			msg, pan := safely(func() {
+				switch how {
+				case "NewTemperatureSensor":
+					a = accessory.NewTemperatureSensor(accessory.Info{Name: "T"}, 21, bd[0], bd[1], bd[2]).Accessory
+				case "NewThermostat":
+					a = accessory.NewThermostat(accessory.Info{Name: "T"}, 21, bd[0], bd[1], bd[2]).Accessory
+				default:
+					t := accessory.NewTemperatureSensor(accessory.Info{Name: "T"}, 21, 0, 100, 0.1)
+					t.TempSensor.CurrentTemperature.SetMinValue(bd[0])
+					t.TempSensor.CurrentTemperature.SetMaxValue(bd[1])
+					t.TempSensor.CurrentTemperature.SetStepValue(bd[2])
+					a = t.Accessory
+				}
+			})
+			in := map[string]interface{}{"how": how, "min": fmt.Sprint(bd[0]), "max": fmt.Sprint(bd[1]), "step": fmt.Sprint(bd[2])}
+			if pan {
+				c.Violate("accessory constructor panics", id, in, "an accessory", msg)
+				continue
+			}
+			f, addr, err := verifiedFixture(c, []*accessory.Accessory{a, accessory.NewSwitch(accessory.Info{Name: "S"}).Accessory})
+			if err != nil {
+				c.Violate("fixture cannot be built", id, in, "fixture", err.Error())
+				continue
+			}
+			st, body, _, pm := f.Do(addr, "GET", "/accessories", "", nil)
+			var any interface{}
+			if pm != "" || st != 200 || json.Unmarshal(bytes.TrimSpace(body), &any) != nil {
+				c.Violate("the attribute database is not served as well-formed JSON (a bound of a characteristic is not a number)", id, in, "200 + JSON", fmt.Sprint(st, " ", trunc(string(body), 100), pm))
+			}
+			hmsg, hpan := safely(func() { f.container.ContentHash() })
+			if hpan {
+				c.Violate("the configuration hash of the accessories cannot be computed (hc.NewIPTransport panics: the accessory cannot be started)", id, in, "a hash", hmsg)
+			}
+			c.Count(id, true, "stream:getter-values")
+			f.Close()
+		}
+	}
 	// … and a float characteristic that declares no bounds (nothing clamps): the application sets such a value itself
 	// (a division by zero of its own), or supplies it on demand
 	for i, bad := range []float64{math.Inf(1), math.Inf(-1), math.NaN()} {
